@@ -45,8 +45,8 @@ type recKV struct {
 	self *protocol.Node
 
 	mu      sync.Mutex
-	muts    []string                          // mutation log (every call that can change the DHT)
-	gets    []string                          // keys read through Get
+	muts    []string                               // mutation log (every call that can change the DHT)
+	gets    []string                               // keys read through Get
 	getHook func(key string) ([]byte, error, bool) // optional override of Get
 	succ    []chord.VNode
 	succErr error
